@@ -167,6 +167,9 @@ ScheduleScenarios ==
        steps |-> << Listen, Http("hostile", "POST", "/schedules", Obj(With(ScheduleFields, x[1], x[2].raw))),
                     Http("read", "GET", "/schedules/s-@SID@", ""), Http("search", "GET", "/schedules?id=*", "") >> \o Aftermath(1700) \o CanaryS("1")] : x \in cases}
 
+\* (a lease of the largest ttl: the sweeps are rare, so that the heartbeat - which computes the lease end anew - comes before
+\* a sweep could take the task away; what the heartbeat stored is read by the "finish" step)
+SlowSweeps(x) == IF x[1] = "ttl" /\ x[2].raw = "9223372036854775807" THEN << "--system-signal-timeout", "2s" >> ELSE <<>>
 \* --- locks and tasks
 LockFields == << <<"resourceId", "\"r-@SID@\"">>, <<"executionId", "\"e\"">>, <<"processId", "\"w\"">>, <<"ttl", "200">> >>
 ClaimFields == << <<"id", "\"__invoke:@SID@\"">>, <<"counter", "1">>, <<"processId", "\"w\"">>, <<"ttl", "200">> >>
@@ -183,9 +186,11 @@ LockTaskScenarios ==
        steps |-> << Http("hostile", "POST", "/locks/acquire", Obj(With(LockFields, x[1], x[2].raw))),
                     Http("heartbeat", "POST", "/locks/heartbeat", "{\"processId\":\"w\"}") >> \o Aftermath(400)] : x \in lcases}
      \cup
-     {[ep |-> "POST /tasks/claim", field |-> x[1], raw |-> x[2].raw, expect |-> x[2].expect,
+     {[ep |-> "POST /tasks/claim", field |-> x[1], raw |-> x[2].raw, expect |-> x[2].expect, args |-> SlowSweeps(x),
        steps |-> << TaskPromise, Http("hostile", "POST", "/tasks/claim", Obj(With(ClaimFields, x[1], x[2].raw))),
-                    Http("heartbeat", "POST", "/tasks/heartbeat", "{\"processId\":\"w\"}") >> \o Aftermath(500)] : x \in tcases}
+                    Http("heartbeat", "POST", "/tasks/heartbeat", "{\"processId\":\"w\"}"),
+                    \* (the task row is read again: a lease end the heartbeat could not represent would show here)
+                    Http("finish", "POST", "/tasks/complete", "{\"id\":\"__invoke:@SID@\",\"counter\":1}") >> \o Aftermath(500)] : x \in tcases}
      \cup
      {[ep |-> "GET path", field |-> "path", raw |-> p, expect |-> "ok",
        steps |-> << TaskPromise, Http("hostile", "GET", p, "") >> \o Aftermath(300)] : p \in paths}
@@ -212,9 +217,10 @@ MoreScenarios ==
        steps |-> << Listen, Http("hostile", "POST", "/promises/task", PromiseTaskBody(With(RoutedPromiseFields, x[1], x[2].raw), TaskBodyFields)),
                     Http("read", "GET", "/promises/@SID@", "") >> \o Aftermath(700)] : x \in pcases}
      \cup
-     {[ep |-> "POST /promises/task", field |-> "task." \o x[1], raw |-> x[2].raw, expect |-> x[2].expect,
+     {[ep |-> "POST /promises/task", field |-> "task." \o x[1], raw |-> x[2].raw, expect |-> x[2].expect, args |-> SlowSweeps(x),
        steps |-> << Listen, Http("hostile", "POST", "/promises/task", PromiseTaskBody(RoutedPromiseFields, With(TaskBodyFields, x[1], x[2].raw))),
-                    Http("heartbeat", "POST", "/tasks/heartbeat", "{\"processId\":\"w\"}") >> \o Aftermath(600)] : x \in tcases}
+                    Http("heartbeat", "POST", "/tasks/heartbeat", "{\"processId\":\"w\"}"),
+                    Http("finish", "POST", "/tasks/complete", "{\"id\":\"__invoke:@SID@\",\"counter\":1}") >> \o Aftermath(600)] : x \in tcases}
      \cup
      {[ep |-> "POST /promises/task", field |-> "body", raw |-> w.raw, expect |-> w.expect,
        steps |-> << Http("hostile", "POST", "/promises/task", w.raw) >> \o Aftermath(200)] : w \in whole}
